@@ -17,7 +17,7 @@ from ..ast.visitor import DefaultVisitor
 from ..fpc_context import FPCoreContext
 from ..interpret import Interpreter, Value, get_default_interpreter
 from ..interpret.value import to_value, unwrap_foreign
-from ..number import REAL
+from ..number import REAL, Float
 from .define_use import DefineUse, DefineUseAnalysis, Definition, DefSite
 
 
@@ -42,6 +42,26 @@ class PartialEvalInfo:
     by_def: dict[Definition, Value]
     by_expr: dict[Expr, Value]
     def_use: DefineUseAnalysis
+
+
+def _same_value(a, b) -> bool:
+    """Whether two known values are the same constant.
+
+    Plain ``==`` is too coarse: ``+0.0 == -0.0``, yet ``1 / x`` tells them
+    apart, so a phi of the two must not be folded to either one.
+    """
+    if isinstance(a, Float) and isinstance(b, Float):
+        return a == b and a.s == b.s
+    if isinstance(a, (tuple, list)) and isinstance(b, (tuple, list)):
+        return (
+            type(a) is type(b)
+            and len(a) == len(b)
+            and all(_same_value(x, y) for x, y in zip(a, b))
+        )
+    if isinstance(a, Float) or isinstance(b, Float):
+        # a `Float` against a `Fraction`: equal values, but only one has a sign of zero
+        return a == b and not (a == 0)
+    return a == b
 
 
 class _PartialEvalInstance(DefaultVisitor):
@@ -109,7 +129,7 @@ class _PartialEvalInstance(DefaultVisitor):
             return a
         if a is _TOP or b is _TOP:
             return _TOP
-        return a if a == b else _TOP
+        return a if _same_value(a, b) else _TOP
 
     def _merge_branch_phis(self, stmt: Stmt):
         """Merge phis after an ``if`` / ``if-else``: both branches are
